@@ -82,6 +82,10 @@ class Loader:
     def __init__(self, src_root: Optional[str] = None, path_cls=None, shutil_mod=None) -> None:
         self.src_root = src_root or SRC_ROOT
         self.modules: Dict[str, types.ModuleType] = {}
+        if path_cls is None:
+            from . import symfile as _SF
+
+            path_cls, shutil_mod = _SF.SymPath, _SF.shutil
         self.path_cls = path_cls
         self.shutil_mod = shutil_mod
         self.sources: Dict[str, str] = {}
